@@ -351,6 +351,16 @@ EnvSet(s, a, k, i, b) ==
       s2 == SetSlot(Unbuffer([s1 EXCEPT !.rc[b] = @ + 1], b), a, k, i, b)
   IN Emit(s2, RetEv(s2, "set", <<>>))
 
+EnvPut(s, a, k, i, o) ==     \* the program moves one of its handles into a field (no library call)
+  LET s1 == Emit(s, CallEv(s, [op |-> "put", a |-> a, k |-> k, i |-> i, o |-> o]))
+      s2 == SetSlot([s1 EXCEPT !.roots[o] = @ - 1], a, k, i, o)
+  IN Emit(s2, RetEv(s2, "put", <<>>))
+EnvTake(s, a, k, i) ==       \* the program moves a field out into a handle
+  LET t == SlotsOf(s, a, k)[i]
+      s1 == Emit(s, CallEv(s, [op |-> "take", a |-> a, k |-> k, i |-> i]))
+      s2 == SetSlot([s1 EXCEPT !.roots[t] = @ + 1], a, k, i, 0)
+  IN Emit(s2, RetEv(s2, "take", [o |-> t]))
+
 EnvMark(s, o) ==
   LET s1 == Emit(s, CallEv(s, [op |-> "mark", o |-> o]))  s2 == Unbuffer(s1, o) IN Emit(s2, RetEv(s2, "mark", <<>>))
 
@@ -369,6 +379,42 @@ EnvFAgain(s, o) ==
        THEN Emit(s1, [RetEv(s1, "fagain", <<>>) EXCEPT !.panic = "fagain"])   \* documented panic, caught at top level
        ELSE Emit(s1, RetEv(s1, "fagain", [res |-> "fagain"]))                 \* probe made inside a callback: caught there
   ELSE LET s2 == [s1 EXCEPT !.fz[o] = FALSE] IN Emit(s2, RetEv(s2, "fagain", [res |-> "ok"]))
+
+
+\* ---- weak pointers (weak/mod.rs)
+MAXWC == 32767
+EnvDowngrade(s, o) ==
+  LET s1 == Emit(s, CallEv(s, [op |-> "downgrade", o |-> o]))
+      s2 == IF s1.hm[o] THEN s1
+            ELSE Emit([s1 EXCEPT !.hm[o] = TRUE, !.meta[o] = [alive |-> TRUE, wc |-> 0, acc |-> TRUE]],
+                      [e |-> "alloc", k |-> "meta", o |-> o, blk |-> N + o, size |-> MSZ, align |-> 8])
+      s3 == Unbuffer([s2 EXCEPT !.meta[o].wc = @ + 1, !.wroots[o] = @ + 1], o)
+  IN Emit(s3, RetEv(s3, "downgrade", <<>>))
+
+UpgradeCore(s1, t, op, extra) ==
+  IF WeakStrong(s1, t) = 0 THEN Emit(s1, RetEv(s1, op, [res |-> "none"] @@ extra))
+  ELSE LET s2 == Unbuffer([s1 EXCEPT !.rc[t] = @ + 1, !.roots[t] = @ + 1], t)
+       IN Emit(s2, RetEv(s2, op, [res |-> "some", vok |-> TRUE] @@ extra))
+EnvUpgrade(s, o) == UpgradeCore(Emit(s, CallEv(s, [op |-> "upgrade", o |-> o])), o, "upgrade", <<>>)
+EnvUpgradeF(s, a, i) ==
+  LET t == s.fw[a][i] IN UpgradeCore(Emit(s, CallEv(s, [op |-> "upgradef", a |-> a, k |-> "w", i |-> i])), t, "upgradef", [o |-> t])
+EnvCloneW(s, o) ==
+  LET s1 == Emit(s, CallEv(s, [op |-> "clonew", o |-> o]))
+      s2 == [s1 EXCEPT !.meta[o].wc = @ + 1, !.wroots[o] = @ + 1]
+  IN Emit(s2, RetEv(s2, "clonew", <<>>))
+EnvDropW(s, o) ==
+  LET s1 == Emit([s EXCEPT !.wroots[o] = @ - 1], CallEv(s, [op |-> "dropw", o |-> o]))
+      s2 == DropWeakPtr(s1, o)
+  IN Emit(s2, RetEv(s2, "dropw", <<>>))
+EnvSetW(s, a, i, o) ==
+  LET s1 == Emit(s, CallEv(s, [op |-> "setw", a |-> a, k |-> "w", i |-> i, o |-> o]))
+      s2 == [s1 EXCEPT !.meta[o].wc = @ + 1, !.fw[a][i] = o]
+  IN Emit(s2, RetEv(s2, "setw", <<>>))
+EnvClearW(s, a, i) ==
+  LET t == s.fw[a][i]
+      s1 == Emit([s EXCEPT !.fw[a][i] = 0], CallEv(s, [op |-> "clearw", a |-> a, k |-> "w", i |-> i, o |-> t]))
+      s2 == DropWeakPtr(s1, t)
+  IN Emit(s2, RetEv(s2, "clearw", <<>>))
 
 \* operations that can run callbacks: push frames, Run does the rest
 EnvDrop(s, o) ==
@@ -411,6 +457,15 @@ ADrop == /\ "drop" \in OPS /\ Budget(st) /\ Full(st)
 ASet == /\ "set" \in OPS /\ Budget(st) /\ Full(st)
         /\ \E a \in Acc(st), k \in Kinds, b \in Objs : \E i \in DOMAIN SlotsOf(st, a, k) :
              SlotsOf(st, a, k)[i] = 0 /\ st.roots[b] > 0 /\ st.rc[b] < MAXRC /\ Do(EnvSet(Begin(st), a, k, i, b))
+APut == /\ "put" \in OPS /\ Budget(st) /\ Full(st)
+        /\ \E a \in Acc(st), k \in Kinds, o \in Objs : \E i \in DOMAIN SlotsOf(st, a, k) :
+             /\ SlotsOf(st, a, k)[i] = 0 /\ st.roots[o] > 0
+             \* the program must still be able to name `a` after giving up one handle of `o`
+             /\ (a # o \/ st.roots[o] >= 2 \/ a \in OpenSelves(st))
+             /\ Do(EnvPut(Begin(st), a, k, i, o))
+ATake == /\ "take" \in OPS /\ Budget(st) /\ Full(st)
+         /\ \E a \in Acc(st), k \in Kinds : \E i \in DOMAIN SlotsOf(st, a, k) :
+              SlotsOf(st, a, k)[i] # 0 /\ st.roots[SlotsOf(st, a, k)[i]] < MaxRoots /\ Do(EnvTake(Begin(st), a, k, i))
 AClear == /\ "clear" \in OPS /\ Budget(st) /\ Full(st)
           /\ \E a \in Acc(st), k \in Kinds : \E i \in DOMAIN SlotsOf(st, a, k) :
                SlotsOf(st, a, k)[i] # 0 /\ Do(EnvClear(Begin(st), a, k, i))
@@ -425,10 +480,25 @@ ADropVal == /\ "unwrap" \in OPS /\ Budget(st) /\ Full(st)
             /\ \E o \in Objs : st.moved[o] /\ o \notin OpenSelves(st) /\ Do(EnvDropVal(Begin(st), o))
 AFAgain == /\ "fagain" \in OPS /\ FIN /\ Budget(st)
            /\ \E o \in Objs : st.roots[o] > 0 /\ Do(EnvFAgain(Begin(st), o))
+ADowngrade == /\ "downgrade" \in OPS /\ WEAK /\ Budget(st) /\ Full(st)
+              /\ \E o \in Objs : st.roots[o] > 0 /\ st.wroots[o] < MaxWRoots /\ Do(EnvDowngrade(Begin(st), o))
+AUpgrade == /\ "upgrade" \in OPS /\ WEAK /\ Budget(st) /\ Full(st)
+            /\ \E o \in Objs : st.wroots[o] > 0 /\ st.roots[o] < MaxRoots /\ Do(EnvUpgrade(Begin(st), o))
+AUpgradeF == /\ "upgradef" \in OPS /\ WEAK /\ Budget(st)
+             /\ \E a \in (IF Full(st) THEN Acc(st) ELSE {SelfOf(st)}) : \E i \in 1..NW :
+                  st.fw[a][i] # 0 /\ st.roots[st.fw[a][i]] < MaxRoots /\ Do(EnvUpgradeF(Begin(st), a, i))
+ACloneW == /\ "clonew" \in OPS /\ WEAK /\ Budget(st) /\ Full(st)
+           /\ \E o \in Objs : st.wroots[o] > 0 /\ st.wroots[o] < MaxWRoots /\ Do(EnvCloneW(Begin(st), o))
+ADropW == /\ "dropw" \in OPS /\ WEAK /\ Budget(st) /\ Full(st)
+          /\ \E o \in Objs : st.wroots[o] > 0 /\ Do(EnvDropW(Begin(st), o))
+ASetW == /\ "setw" \in OPS /\ WEAK /\ Budget(st) /\ Full(st)
+         /\ \E a \in Acc(st), o \in Objs : \E i \in 1..NW : st.fw[a][i] = 0 /\ st.wroots[o] > 0 /\ Do(EnvSetW(Begin(st), a, i, o))
+AClearW == /\ "clearw" \in OPS /\ WEAK /\ Budget(st) /\ Full(st)
+           /\ \E a \in Acc(st) : \E i \in 1..NW : st.fw[a][i] # 0 /\ Do(EnvClearW(Begin(st), a, i))
 AReturn == /\ st.stack # <<>> /\ Do(EnvReturn([st EXCEPT !.ev = <<>>]))
 APanic == /\ st.stack # <<>> /\ st.nfaults < MaxFaults /\ ~Unwinding(st) /\ Do(EnvPanic([st EXCEPT !.ev = <<>>]))
 
-Next == ANew \/ AClone \/ ACloneF \/ ADrop \/ ASet \/ AClear \/ AMark \/ ACollect \/ AUnwrap \/ ADropVal \/ AFAgain \/ AReturn \/ APanic
+Next == APut \/ ATake \/ ADowngrade \/ AUpgrade \/ AUpgradeF \/ ACloneW \/ ADropW \/ ASetW \/ AClearW \/ ANew \/ AClone \/ ACloneF \/ ADrop \/ ASet \/ AClear \/ AMark \/ ACollect \/ AUnwrap \/ ADropVal \/ AFAgain \/ AReturn \/ APanic
 
 Init == /\ st = Init0
         /\ mon = Mon(MonInit, ResetEv)
